@@ -309,6 +309,7 @@ def coap_units(M):
         which answer lands on which (aid, iid) - also when some of the requested characteristics are not readable"""
         ids = [(1, 10), (1, 11), (1, 12)]
         readable = [ex.fresh_bool("readable%d" % i) for i in range(3)]
+        empty = [ex.fresh_bool("empty_value%d" % i) for i in range(3)]  # a readable characteristic may answer with an empty body
         conn = object.__new__(M.cconn.CoAPHomeKitConnection)
 
         class Ch:
@@ -331,7 +332,8 @@ def coap_units(M):
             async def post_all(self, opcode, iids, data):
                 asked.append(list(iids))
                 # the accessory: a value TLV (type 1) naming the instance id, or Invalid Request for a characteristic it cannot read
-                return [bytes([1, 1, iid]) if chars[iid].supports_secure_reads else M.cconn.PDUStatus.INVALID_REQUEST for iid in iids]
+                return [(b"" if empty[[k[1] for k in ids].index(iid)] else bytes([1, 1, iid])) if chars[iid].supports_secure_reads
+                        else M.cconn.PDUStatus.INVALID_REQUEST for iid in iids]
 
         conn.info, conn.enc_ctx = Info(), Enc()
         out = drive(conn.read_characteristics(list(ids)))
@@ -339,7 +341,8 @@ def coap_units(M):
             r = out.get(k)
             if readable[i]:
                 ex.tag("coap-read-value")
-                ex.require(r == {"value": ("decoded", k[1], bytes([k[1]]))}, "coap-read: a readable characteristic gets the value the accessory sent for that instance id")
+                want = {"value": b""} if empty[i] else {"value": ("decoded", k[1], bytes([k[1]]))}
+                ex.require(r == want, "coap-read: a readable characteristic gets the value the accessory sent for that instance id (an empty body is an empty value, not another one's)")
             else:
                 ex.tag("coap-read-refused")
                 ex.require(r is not None and r.get("status") not in (0, None) and "value" not in r,
